@@ -19,6 +19,7 @@ from ..astutil import (
 )
 from ..cfg import no_exc
 from ..report import Registry, sub
+from ._helpers_rob_i import nf
 from ._helpers_rules_c import PathSense, both, call_nodes, cut_edges, kw_or_pos, loc_of, must_pass, own_calls, test_edges
 
 R = Registry(
@@ -124,6 +125,13 @@ def _shard_bind_param(ctx) -> str:
     return names.pop()
 
 
+def _iter_call_name(fn, loop_stmt) -> Optional[str]:
+    """Callee of the call a `for` statement iterates over, also when the iterable was first put into a local
+    (`ids = session.execute_chooser(ctx)` / `for shard_id in ids:`)."""
+    it = _through_local(fn, loop_stmt.iter)
+    return call_name(it) if isinstance(it, ast.Call) else None
+
+
 class _Fan:
     """Facts about the fan-out hook: chooser loop, per-shard executor, accumulator."""
 
@@ -131,8 +139,7 @@ class _Fan:
         self.ctx = ctx
         self.F = F = _fanout_function(ctx)
         self.g = g = ctx.cfg(F)
-        loops = [n for n in g.nodes if n.kind == "for" and isinstance(n.stmt.iter, ast.Call)
-                 and _last(call_name(n.stmt.iter)) == "execute_chooser"]
+        loops = [n for n in g.nodes if n.kind == "for" and _last(_iter_call_name(F.node, n.stmt)) == "execute_chooser"]
         ctx.require(len(loops) == 1, f"{F.key}: expected one `for <id> in <session>.execute_chooser(...)` loop, found {len(loops)}")
         self.loop = loops[0]
         ctx.require(isinstance(self.loop.stmt.target, ast.Name), "chooser loop target is not a plain name")
@@ -496,17 +503,31 @@ def r3(ctx):
                        and t[: -len(" is None")].isidentifier()})
     ctx.require(len(cand) == 1, f"{F.key}: cannot tell which local holds the explicitly requested shard ({cand})")
     S = cand[0]
-    assigns = [(v, st) for nm, v, st in name_stores(F.node) if nm == S and v is not None and not isinstance(st, (ast.For, ast.AsyncFor))]
+    assigns = []    # (value expression, statement whose guards qualify it, scope of that statement, statement of F that binds S)
+    for nm, v, st in name_stores(F.node):
+        if nm != S or v is None or isinstance(st, (ast.For, ast.AsyncFor)):
+            continue
+        helper = _module_helper(ctx, F, v)
+        if helper is None:
+            assigns.append((v, st, F.node, st))
+            continue
+        # `S = _explicit_shard(...)`: an extracted helper decides; every value it returns is a value S receives here
+        ctx.functions_analysed.add(helper.key)
+        for r in [x for x in walk_local(helper.node) if isinstance(x, ast.Return) and x.value is not None]:
+            rv = _through_local(helper.node, r.value)
+            if isinstance(rv, ast.Constant) and rv.value is None:
+                continue
+            assigns.append((rv, r, helper.node, st))
     ps = PathSense(g)
     opt_classes = _option_classes(ctx)
     ctx.require(opt_classes, "no ORMOption subclass (set_shard_id) in ext/horizontal_shard.py")
     exec_key = _set_shard_key(ctx)
     bind_key = _shard_bind_param(ctx)
 
-    def isinstance_guarded(st, v) -> bool:
+    def isinstance_guarded(st, v, scope) -> bool:
         if not (isinstance(v, ast.Attribute) and isinstance(v.value, ast.Name)):
             return False
-        for t, pol in lexical_guards(pm, st, stop=F.node):
+        for t, pol in lexical_guards(pm, st, stop=scope):
             if pol and isinstance(t, ast.Call) and call_name(t) == "isinstance" and len(t.args) == 2 \
                     and isinstance(t.args[0], ast.Name) and t.args[0].id == v.value.id:
                 cls = _last(dotted(t.args[1]))
@@ -515,17 +536,17 @@ def r3(ctx):
         return False
 
     sources = [
-        ("set_shard_id-option", lambda v, st: isinstance_guarded(st, v),
+        ("set_shard_id-option", lambda v, st, sc: isinstance_guarded(st, v, sc),
          "select(X).options(set_shard_id('a')) with an execute chooser returning every shard"),
-        ("identity-token", lambda v, st: any(isinstance(x, ast.Attribute) and x.attr == "_identity_token" for x in ast.walk(v)),
+        ("identity-token", lambda v, st, sc: any(isinstance(x, ast.Attribute) and x.attr == "_identity_token" for x in ast.walk(v)),
          "session.refresh(obj) / a lazy load for an object loaded from shard 'a' while the same primary key also exists in shard 'b'"),
-        ("query-set_shard", lambda v, st: _reads_key(v, "execution_options", exec_key),
+        ("query-set_shard", lambda v, st, sc: _reads_key(v, "execution_options", exec_key),
          "session.query(X).set_shard('a')"),
-        ("bind-argument", lambda v, st: _reads_key(v, "bind_arguments", bind_key),
+        ("bind-argument", lambda v, st, sc: _reads_key(v, "bind_arguments", bind_key),
          f"session.execute(stmt, bind_arguments={{'{bind_key}': 'a'}})"),
     ]
     for name, pred, inp in sources:
-        hits = [(v, st) for v, st in assigns if pred(v, st)]
+        hits = [(v, bind_st) for v, st, sc, bind_st in assigns if pred(v, st, sc)]
         key = f"{F.key}:explicit-shard[{name}]"
         if not hits:
             ctx.violation(key, f"the hook no longer reads the explicit shard source `{name}`: {inp} is fanned out to the "
@@ -577,7 +598,9 @@ def _returns_in(g, nodes) -> List[int]:
              "otherwise shard_chooser's result is recorded on the object and returned; connection_callable / get_bind route "
              "by that id through the shard table")
 def r4(ctx):
-    ca = ctx.func(f"{SESSION}._choose_shard_and_assign")
+    # `identity_key = state.key` / `assigned = state.identity_token` snapshots are resolved (no helper inlining: the rule's
+    # vocabulary are the self.* calls themselves)
+    ca = nf(ctx, ctx.func(f"{SESSION}._choose_shard_and_assign"), inline=False, alias="dotted")
     g = ctx.cfg(ca)
     ctx.require(len([p for p in ca.params if p != "self"]) >= 2, "_choose_shard_and_assign lost its (mapper, instance) parameters")
     inst = [p for p in ca.params if p != "self"][1]
@@ -664,7 +687,7 @@ def r4(ctx):
     # (d) connection_callable / get_bind
     bind_key = _shard_bind_param(ctx)
     for fname, sinks in (("connection_callable", ("connection", "get_bind")), ("get_bind", ())):
-        f = ctx.func(f"{SESSION}.{fname}")
+        f = nf(ctx, ctx.func(f"{SESSION}.{fname}"), inline=False, alias="dotted")
         gf = ctx.cfg(f)
         ctx.require(bind_key in f.params, f"{f.key} has no `{bind_key}` parameter")
         chosen = []
@@ -721,6 +744,22 @@ def r4(ctx):
               f"self.__shards[{ps_[0]}] = {ps_[1]}", bs.loc)
 
 
+def _module_helper(ctx, F, v):
+    """FuncInfo of the same-module function (or method of F's class called on self) that the call expression `v` runs; None
+    for anything else (calls on other objects are collaborations, not extracted helpers)."""
+    if not isinstance(v, ast.Call):
+        return None
+    fn = v.func
+    r = None
+    if isinstance(fn, ast.Name):
+        r = ctx.index.resolve(F.module, fn.id)
+    elif isinstance(fn, ast.Attribute) and isinstance(fn.value, ast.Name) and fn.value.id in ("self", "cls") and F.cls is not None:
+        r = ctx.index.resolve_method(F.cls, fn.attr)
+    if r is None or getattr(r, "module", None) is not F.module or not isinstance(getattr(r, "node", None), (ast.FunctionDef, ast.AsyncFunctionDef)):
+        return None
+    return r
+
+
 def _through_local(fn, e, depth=0):
     """Expression with a returned local replaced by its single definition (`token = state.key[2]; return token`)."""
     if isinstance(e, ast.Name) and depth < 3:
@@ -764,8 +803,7 @@ def r6(ctx):
     f = ctx.func(f"{SESSION}._identity_lookup")
     g = ctx.cfg(f)
     ctx.require("identity_token" in f.params, "_identity_lookup lost its identity_token parameter")
-    chooser_loops = [n for n in g.nodes if n.kind == "for" and isinstance(n.stmt.iter, ast.Call)
-                     and call_name(n.stmt.iter) == "self.identity_chooser"]
+    chooser_loops = [n for n in g.nodes if n.kind == "for" and _iter_call_name(f.node, n.stmt) == "self.identity_chooser"]
     ctx.require(len(chooser_loops) == 1, "expected one `for <token> in self.identity_chooser(...)` loop in _identity_lookup")
     loop = chooser_loops[0]
     ctx.require(isinstance(loop.stmt.target, ast.Name), "identity chooser loop target is not a name")
